@@ -67,6 +67,96 @@ PROPS["C13"] = {
     "assumptions": ["sync.Once and atomic int32 behave sequentially within one request (single goroutine)"],
 }
 
+# ------------------------------------------------------------------- router suites
+import router_props as rp
+
+ROUTER_TRUST = COMMON_TRUST + [
+    "parameter: Go's regexp engine (every theorem is quantified over all engines; at run time the model is given "
+    "Go's own answers through the two-pass oracle protocol)",
+    "parameter: net/http header canonicalisation (the harness sends canonical names)",
+    "the AST on each ADD line is what the real route parser returns for the text (text ↔ AST is property C06's tie)",
+]
+
+PROPS["C01"] = {
+    "technique": "Lean 4 theorems over the route-tree model (all route sets, orders, paths) + differential correspondence "
+                 "of Flame.ServeHTTP and route.Tree.Match with the model",
+    "level_text": "Dispatch is modelled executably (registration with rank insertion, backtracking matcher, router layer); "
+                  "theorems are over all route sets/registration orders/paths; the model is tied to tree.go/leaf.go/router.go by "
+                  "a differential check on random and small-scope-exhaustive route sets at both the Flame and the Tree level.",
+    "level_note": "Trusted: Lean kernel; hand-written model tied by differential testing; regexp is a parameter.",
+    "props_modules": ["Flamego.Props.C01"],
+    "suite": "C01",
+    "compare": lambda s, R, M: rp.cmp_dispatch(s, R, M),
+    "stats": rp.router_stats(lambda op, r, m, n: r.startswith("h ") and n >= 2,
+        "case = (registered route set, request); distinct by route texts + request line; non-trivial = the request was "
+        "dispatched to a handler while at least two routes were registered"),
+    "known_match": no_known,
+    "trusted_base": ROUTER_TRUST,
+    "assumptions": ["regexp.FindStringSubmatch / MatchString are deterministic functions of (pattern, input)"],
+}
+
+def _router_entry(pid, technique, level_text, compare, nontrivial, rule, extra_trust=()):
+    PROPS[pid] = {
+        "technique": technique,
+        "level_text": level_text,
+        "level_note": "Trusted: Lean kernel; hand-written model tied by differential testing; regexp, net/http header "
+                      "canonicalisation and the text→AST step of the real parser are parameters.",
+        "props_modules": ["Flamego.Props." + pid],
+        "suite": pid,
+        "compare": compare,
+        "stats": rp.router_stats(nontrivial, rule),
+        "known_match": no_known,
+        "trusted_base": ROUTER_TRUST + list(extra_trust),
+        "assumptions": ["regexp.FindStringSubmatch / MatchString are deterministic functions of (pattern, input)"],
+    }
+
+_router_entry("C02",
+    "Lean 4 theorems over the matcher's parameter threading + differential correspondence of handler-visible params, Tree.Match params and URLPath re-assembly",
+    "Parameters are modelled exactly as the matcher threads them (including values left by abandoned branches); theorems over all "
+    "routes/paths; correspondence compares, for every dispatched request, the values of the winning form's binds, `route`, and the "
+    "URL rebuilt from them, at Flame and Tree level.",
+    lambda s, R, M: rp.cmp_dispatch(s, R, M, params=True),
+    lambda op, r, m, n: r.startswith("h ") and "=" in (m.split()[3] if len(m.split()) > 3 else ""),
+    "case = (route set, request); non-trivial = dispatched to a route whose winning form has at least one bind")
+_router_entry("C07",
+    "Lean 4 theorems (serve is a total function with exactly one outcome; index-level matcher never slices out of range) + "
+    "differential correspondence on arbitrary byte paths, methods and headers with recover() around ServeHTTP",
+    "Totality and single-outcome are by construction of the model; the correspondence feeds arbitrary bytes as path/method/headers, "
+    "recovers panics, counts chains through an application middleware and issues every request twice.",
+    lambda s, R, M: rp.cmp_dispatch(s, R, M, chains=True),
+    lambda op, r, m, n: True,
+    "case = (route set, request); every distinct case counts (the quantifier is 'any request whatsoever'); distribution shows raw-byte paths and odd methods")
+_router_entry("C08",
+    "Lean 4 theorems over addRoute (rejections and acceptance) + differential correspondence of registration verdicts (panic / no panic) and subsequent reachability",
+    "Registration is modelled with every rejection of tree.go/leaf.go/router.go; the correspondence compares ok/err of every "
+    "registration in random valid+invalid histories (panics recovered) and then dispatch on instances of the accepted routes.",
+    lambda s, R, M: rp.cmp_dispatch(s, R, M, setup=True),
+    lambda op, r, m, n: n >= 1,
+    "case = (history of registrations, request after it); non-trivial = at least one registration was accepted; the distribution counts accepted and rejected registrations")
+_router_entry("C09",
+    "Lean 4 theorems over the header-constraint table and leaf eligibility + differential correspondence with Headers() re-specification and header-carrying requests",
+    "Constraints are modelled per registration handle, consulted by every leaf of it (both forms, every method); theorems cover "
+    "replacement, the eligibility test and eviction from the fast path; the correspondence interleaves Headers() calls and requests.",
+    lambda s, R, M: rp.cmp_dispatch(s, R, M, setup=True),
+    lambda op, r, m, n: " " in op.strip() and len(op.split()) > 3,
+    "case = (route set with constraints, request); non-trivial = the request carries at least one header field")
+_router_entry("C10",
+    "Lean 4 theorems (fast-path table invariant ⇒ serve = serveTreeOnly) + differential correspondence Flame.ServeHTTP vs route.Tree.Match on an identically populated tree vs the model",
+    "The shortcut table is part of the router model; theorem: table miss ⇒ tree; invariant-based unobservability; the correspondence "
+    "runs every request against the real Flame and a shadow tree populated through the export, in histories interleaving "
+    "registrations, Headers() and requests.",
+    lambda s, R, M: rp.cmp_dispatch(s, R, M, params=True),
+    lambda op, r, m, n: r.startswith("h "),
+    "case = (history, request); non-trivial = dispatched (to a static or shadowing dynamic route)")
+_router_entry("C12",
+    "Lean 4 theorems over skeleton/replaceAll/name table + differential correspondence of Router.URLPath / Context.URLPath / Leaf.URLPath",
+    "URL building is modelled as skeleton + a model of strings.Replacer; name-table panics are theorems; the correspondence builds "
+    "URLs for named routes with values containing braces, other bind names, slashes and empty strings, with and without the optional segment.",
+    lambda s, R, M: rp.cmp_dispatch(s, R, M, params=True, setup=True, urls=True),
+    lambda op, r, m, n: op.startswith("URL") or r.startswith("h "),
+    "case = (route set, URL-building call or dispatched request); counted when a URL was built",
+    extra_trust=["parameter: strings.Replacer (modelled as leftmost, first-listed-key replacement and differentially checked); "
+                 "bind names are brace-free in generated cases because Go's map order makes colliding keys non-deterministic"])
 
 HOOK_COMMITS = ["a5cf397"]
 
